@@ -67,6 +67,8 @@ func (n *c6Node) src(hid *int) string {
 			mid = "(error 'internal-panic d)"
 		case 4:
 			mid = "(boom)"
+		default:
+			mid = c6PanicRoutes[n.signal-5]
 		}
 	}
 	body := "(probe 'a" + itoa(n.id) + ") " + mid + " (probe 'b" + itoa(n.id) + ")"
@@ -99,6 +101,19 @@ func (n *c6Node) src(hid *int) string {
 	return sb.String()
 }
 
+// the host panic reaches the handling form through every way of running code
+var c6PanicRoutes = []string{
+	"(load-string \"(boom)\")",
+	"(load-bytes (to-bytes \"(progn 1 (boom))\"))",
+	"(eval '(boom))",
+	"(funcall 'boom)",
+	"(apply boom ())",
+	"(c6-bf)",
+	"(c6-bm)",
+	"(map 'list (lambda (x) (boom)) '(1))",
+	"(load-string \"(load-string \\\"(c6-bf)\\\")\")",
+}
+
 // eval is the reference semantics of docs/lang.md for this grammar.
 func (n *c6Node) eval(trace *[]string) c6Result {
 	*trace = append(*trace, "a"+itoa(n.id))
@@ -115,7 +130,7 @@ func (n *c6Node) eval(trace *[]string) c6Result {
 			r.err = &c6Err{name: "c2"}
 		case 3:
 			r.err = &c6Err{name: "internal-panic"}
-		case 4:
+		default: // 4 and every route of c6PanicRoutes: a real host panic
 			r.err = &c6Err{name: "internal-panic", real: true}
 		}
 	}
@@ -168,7 +183,7 @@ func c6Gen(depth int, id *int) *c6Node {
 	if depth > 1 && vndBool("nest") {
 		n.child = c6Gen(depth-1, id)
 	} else {
-		n.signal = vndChoice("signal", 5)
+		n.signal = vndChoice("signal", 5+len(c6PanicRoutes))
 	}
 	return n
 }
@@ -185,7 +200,26 @@ func VerifC06_EHandlers() {
 	src := root.src(&hid)
 	ps := &probeState{panicAt: 1}
 	env := newEnv(ps)
-	env.PutGlobal(lisp.Symbol("d"), lisp.Int(d))
+	// the error's data: an int, or a value that is not self-evaluating (an unquoted symbol that
+	// happens to be bound, an unquoted call form) — the handler must receive it as it is
+	dkind := vConcInt(vndChoice("dkind", 5))
+	var dval *lisp.LVal
+	switch dkind {
+	case 0:
+		dval = lisp.Int(d)
+	case 1:
+		env.PutGlobal(lisp.Symbol("foo"), lisp.Int(99))
+		dval = lisp.Symbol("foo")
+	case 2:
+		dval = lisp.SExpr([]*lisp.LVal{lisp.Symbol("+"), lisp.Int(1), lisp.Int(6)})
+	case 3:
+		dval = lisp.Quote(lisp.Symbol("q"))
+	case 4:
+		dval = lisp.SExpr([]*lisp.LVal{lisp.Symbol("no-such-function"), lisp.String("s")})
+	}
+	env.PutGlobal(lisp.Symbol("d"), dval)
+	pre := env.LoadString("pre", "(defun c6-bf () (boom)) (defmacro c6-bm () '(boom))")
+	vAssert(pre.Type != lisp.LError, "prelude loads")
 	res := env.LoadString("p", src)
 	var want []string
 	wr := root.eval(&want)
@@ -204,7 +238,11 @@ func VerifC06_EHandlers() {
 			if wr.err.mid {
 				vAssert(len(dv) == 1 && dv[0].Type == lisp.LInt && dv[0].Int == 7, "error data is preserved")
 			} else {
-				vAssert(len(dv) == 1 && dv[0].Type == lisp.LInt && dv[0].Int == d, "error data is preserved")
+				if dkind == 0 {
+					vAssert(len(dv) == 1 && dv[0].Type == lisp.LInt && dv[0].Int == d, "error data is preserved")
+				} else {
+					vAssert(len(dv) == 1 && dv[0].Type == dval.Type && dv[0].String() == dval.String(), "error data is preserved")
+				}
 			}
 		}
 		vCover("error")
